@@ -14,8 +14,15 @@ def sh(cmd, **kw):
     return subprocess.run(cmd, shell=True, capture_output=True, text=True, **kw)
 
 def cargo_test(filter_=""):
-    r = sh("cd %s && CARGO_TARGET_DIR=%s/target CARGO_NET_OFFLINE=true cargo test --offline --lib %s -- --test-threads 8 2>&1" % (WT, WT, filter_))
+    r = sh("cd %s && CARGO_TARGET_DIR=%s/target CARGO_NET_OFFLINE=true timeout -k 5 600 cargo test --offline --lib %s -- --test-threads 8 2>&1" % (WT, WT, filter_))
     out = r.stdout
+    if r.returncode in (124, 137):
+        # a demo that never returns (the seeded change makes the evaluation hang): the tests still running are the failing ones
+        sh("pkill -9 -f %s/target/debug/deps/pypipegraph2- || true" % WT)
+        hung = re.findall(r"test tests::(?:\w+::)*(\w+) has been running for over", out)
+        out += "".join("\ntest tests::%s ... FAILED" % h for h in hung)
+        p_ = len(re.findall(r"\.\.\. ok", out))
+        return ("hung", p_, len(hung)), out
     m = re.search(r"test result: (\w+)\. (\d+) passed; (\d+) failed", out)
     return (m.group(1), int(m.group(2)), int(m.group(3))) if m else ("build-failed", 0, 0), out
 
